@@ -696,6 +696,17 @@ func init() {
 		}
 		return ps
 	}
+	// the same programs printed with only the parentheses the documented precedence requires
+	families["random-minparens"] = func(seed int64, n int) []*Program {
+		r := rand.New(rand.NewSource(seed))
+		var ps []*Program
+		for i := 0; i < n; i++ {
+			p := randomProgram(r, genOpts{Inputs: true, Errors: 0.005, MaxStmts: 8, Closures: true})
+			p.MinParens = true
+			ps = append(ps, p)
+		}
+		return ps
+	}
 	families["random-clean"] = func(seed int64, n int) []*Program {
 		r := rand.New(rand.NewSource(seed))
 		var ps []*Program
